@@ -106,7 +106,8 @@ def make_jobs(ck: Check, inputs: List[g.Input], limit: float, cli_every: int, ta
     for i, inp in enumerate(inputs):
         jobs.append(dict(kind="compile", id=i, dir=os.path.join(ck.dir, f"{tag}{i}"), files=inp["files"],
                          main=inp["main"], symlinks=inp.get("symlinks", {}), limit=limit,
-                         cli=bool(inp.get("cli")) or (cli_every > 0 and i % cli_every == 0)))
+                         cli=bool(inp.get("cli")) or (cli_every > 0 and i % cli_every == 0),
+                         cli_check=bool(inp.get("cli_check")), cli_lang=inp.get("cli_lang", "py")))
     return jobs
 
 
@@ -132,7 +133,8 @@ def still_fails(ck: Check, inp: g.Input, candidates: List[Any], stage: str, sig:
         files = dict(inp["files"])
         files[inp["main"]] = c
         inputs.append({"files": files, "main": inp["main"], "symlinks": inp.get("symlinks", {}),
-                       "cli": stage == "cli"})
+                       "cli": stage in ("cli", "cli_check"), "cli_check": stage == "cli_check",
+                       "cli_lang": inp.get("cli_lang", "py")})
     res = run_inputs(ck, inputs, limit, 0, tag)
     out = []
     for r in res:
@@ -494,6 +496,13 @@ def run(ck: Check) -> None:
     cover = g.grammar_cover()
     cover[0]["cli"] = True
     inputs.extend(cover)
+    shapes = g.identifier_shapes()
+    for k, sh in enumerate(shapes):         # the command line (normal with c / go, and -c) on a sample
+        if k % (16 if ck.quick else 3) == 0:
+            sh["cli"] = True
+            sh["cli_check"] = True
+            sh["cli_lang"] = ("c", "go")[(k // 16) % 2]
+    inputs.extend(shapes)
     inputs.extend(g.directed(rng, N(240, 3000)))
     inputs.extend(g.inside_known(rng, ck.n(22, 110)))
 
@@ -608,7 +617,8 @@ def run(ck: Check) -> None:
     for sig, ent in list(classes.items()):
         if ent["st"].get("cls") == "hang":
             inp = dict(inputs[ent["first"]])
-            inp["cli"] = ent["stage"] == "cli"
+            inp["cli"] = ent["stage"] in ("cli", "cli_check")
+            inp["cli_check"] = ent["stage"] == "cli_check"
             again = run_inputs(ck, [inp], limit * 2, 0, "hang")[0]
             if not any(st.get("cls") == "hang" for _, st in stage_failures(again)):
                 unconfirmed.append({"stage": ent["stage"], "origin": inp.get("origin"), "count": ent["count"]})
@@ -707,7 +717,9 @@ def run(ck: Check) -> None:
                    "NUL, UTF-8 lead/continuation bytes), token-level mutations (delete/insert/replace/swap/duplicate over "
                    "the language's vocabulary + identifiers of the seeds), truncations at every token boundary, random "
                    "token sequences, directed damage (unbalanced braces, stray characters, bad escapes, unterminated "
-                   "strings, long literals below the digit limit, deep nesting, long lines, imports of missing / self / "
+                   "strings, long literals below the digit limit, deep nesting, long lines, identifier shapes (every "
+                   "definition kind x leading/trailing/doubled underscores, single characters, digits, ALLCAPS, mixedCase, "
+                   "300-character names; lint + c/go/py, CLI normal and -c on a sample), imports of missing / self / "
                    "cyclic / directory / symlink-loop / damaged files) and a small stream inside each known class. "
                    "distinct = distinct main-file contents, non-trivial = longer than 12 characters. "
                    "T2 cases are evaluated by Coq against the model (see tie).")
